@@ -9,12 +9,14 @@ From M Require Tie.
 From M Require ArrayRoundTrip.
 From M Require RtFloat.
 From M Require ArrayRoundTrip64.
+From M Require IntRtSigned.
 From M Require DecSpec.
 From M Require FmtModel.
 From M Require GFmt.
 From M Require GFmtSpec.
 From M Require ILog.
 From M Require IntFmtProofs.
+From M Require IntRoundTrip.
 From M Require LexBounds.
 From M Require LexModel.
 From M Require ListWs.
@@ -204,4 +206,14 @@ Theorem C07_rt_uint_array64 :
 Proof. exact (@ArrayRoundTrip64.rt_uint_array64). Qed.
 End T_rt_uint_array64.
 Definition C07_rt_uint_array64 := @T_rt_uint_array64.C07_rt_uint_array64.
+
+Module T_rt_canonical. Import IntRtSigned. Local Open Scope bool_scope. Local Open Scope Z_scope.
+Import FmtModel IntFmtProofs IntRoundTrip. Local Open Scope Z_scope.
+Theorem C07_rt_canonical :
+  forall w val base sign rest,
+  (w = 32 \/ w = 64) -> stops (eff_base base) rest ->
+  read_int (eff_base base) (canonical w val base sign ++ rest) = value_of w val base sign.
+Proof. exact (@IntRtSigned.rt_canonical). Qed.
+End T_rt_canonical.
+Definition C07_rt_canonical := @T_rt_canonical.C07_rt_canonical.
 
